@@ -9,7 +9,12 @@ for p in "$HERE"/selftest/mutants/"$ID"-*.patch "$HERE"/seeded/"$ID"-*/patch.dif
   [ -f "$p" ] || continue
   n=$((n+1))
   name=$(echo "$p" | sed "s#$HERE/##")
-  if "$HERE/tools/mutant.sh" "$p" "$ID" 2>&1 | grep -q "^VIOLATION property=$ID "; then
+  res=$("$HERE/tools/mutant.sh" "$p" "$ID" 2>&1)
+  if echo "$res" | grep -q "hunk.*FAILED\|can't find file to patch"; then
+    echo "SELFTEST-STALE property=$ID $name (the patch no longer applies to the current tree)"
+    list="$list\"$name: stale (does not apply)\","; continue
+  fi
+  if echo "$res" | grep -q "^VIOLATION property=$ID "; then
     det=$((det+1)); list="$list\"$name: detected\","
   else
     und="$und $name"; list="$list\"$name: NOT DETECTED\","
